@@ -116,7 +116,8 @@ def _select_rule(toks, log, where):
 # rules only applied when a region asks for them (rules=R-deasync,...)
 OPT_RULES = {
     "R-select": [_select_rule],
-    "R-mutself": [("R-mutself", "( mut self ,", "( & mut self ,", "`mut self` (unsupported by Verus) read as an exclusive borrow: the body never moves out of self")],
+    "R-mutself": [("R-mutself", "( mut self ,", "( & mut self ,", "`mut self` (unsupported by Verus) read as an exclusive borrow: the body never moves out of self"),
+                  ("R-mutself", "( mut self )", "( & mut self )", "`mut self` (unsupported by Verus) read as an exclusive borrow: the body never moves out of self")],
     "R-deasync": [
         ("R-deasync", "async fn", "fn", "async dropped (sequential reading of .await)"),
         ("R-deasync", ". await", "", "await dropped"),
